@@ -53,6 +53,10 @@ type FuncCtx struct {
 	siteName   map[ssa.Instruction]map[string]string
 	maxPaths   int
 	comparable map[int]bool
+	entryPCLen int
+	cutAt      map[ssa.Instruction]*CutSpec
+	cutDone    map[*CutSpec]bool
+	loopDone   map[*LoopInfo]bool
 }
 
 type assignLoc struct {
@@ -352,11 +356,13 @@ func (u *Universe) verifyFunction(fn *ssa.Function, c *Contract) (fc *FuncCtx) {
 		st.assume(fc.wellFormed(v, p.Type(), st.allocBase))
 		st.assume(fc.typeInvariant(v, p.Type()))
 		st.assume(fc.objInvFact(st.heap, st.allocBase, v, p.Type()))
+		fc.d.old[v.S] = true
 	}
 	for _, fv := range fn.FreeVars {
 		v := fc.freshOf(fv.Name(), fv.Type())
 		fr.vals[fv] = SVal{Val: Val{T: v, Typ: fv.Type()}}
 		fc.params[fv.Name()] = Val{T: v, Typ: fv.Type()}
+		fc.d.old[v.S] = true
 		st.assume(fc.wellFormed(v, fv.Type(), st.allocBase))
 	}
 	st.frames = []*Frame{fr}
@@ -380,6 +386,57 @@ func (u *Universe) verifyFunction(fn *ssa.Function, c *Contract) (fc *FuncCtx) {
 	if len(fn.Blocks) == 0 {
 		fc.errs = append(fc.errs, "function has no body")
 		return fc
+	}
+	fc.entryPCLen = len(st.pc)
+	fc.cutAt = map[ssa.Instruction]*CutSpec{}
+	fc.cutDone = map[*CutSpec]bool{}
+	fc.loopDone = map[*LoopInfo]bool{}
+	for _, cs := range c.Cuts {
+		n := 0
+		var at ssa.Instruction
+		for _, b := range fn.Blocks {
+			for _, in := range b.Instrs {
+				ci, ok := in.(ssa.CallInstruction)
+				if !ok {
+					continue
+				}
+				name := ""
+				if sc := ci.Common().StaticCallee(); sc != nil {
+					name = u.displayName(sc)
+				} else if ci.Common().IsInvoke() {
+					name = "(" + u.typeName(ci.Common().Value.Type()) + ")." + ci.Common().Method.Name()
+				}
+				if name == cs.Callee || genericName(name) == cs.Callee {
+					n++
+					if n == cs.Nth && at == nil {
+						at = in
+					}
+				}
+			}
+		}
+		if at == nil {
+			fc.errs = append(fc.errs, fmt.Sprintf("cut %d: no call of %s#%d in the function body (the contract no longer binds)", cs.Ordinal, cs.Callee, cs.Nth))
+			return fc
+		}
+		// move the cut to the start of the statement: back over the side-effect-free instructions
+		// (loads, address computations, conversions) that compute the call's operands
+		blk := at.Block()
+		idx := 0
+		for i, in := range blk.Instrs {
+			if in == at {
+				idx = i
+			}
+		}
+		for idx > 0 {
+			switch blk.Instrs[idx-1].(type) {
+			case *ssa.UnOp, *ssa.FieldAddr, *ssa.IndexAddr, *ssa.Field, *ssa.Index, *ssa.Extract, *ssa.MakeInterface,
+				*ssa.Convert, *ssa.ChangeType, *ssa.ChangeInterface, *ssa.Slice, *ssa.BinOp, *ssa.DebugRef, *ssa.Lookup:
+				idx--
+				continue
+			}
+			break
+		}
+		fc.cutAt[blk.Instrs[idx]] = cs
 	}
 	fr.block = fn.Blocks[0]
 	ex.run(st)
@@ -630,6 +687,13 @@ func (ex *Exec) run(st *State) {
 			ex.unsupported(st, "fell off block")
 		}
 		in := fr.block.Instrs[fr.idx]
+		if len(st.frames) == 1 && !st.panicking {
+			if cs := fc.cutAt[in]; cs != nil {
+				if stop := ex.atCut(st, fr, cs); stop {
+					return
+				}
+			}
+		}
 		fr.idx++
 		switch in := in.(type) {
 		case *ssa.If:
@@ -745,6 +809,18 @@ func (ex *Exec) enterBlock(st *State, fr *Frame) bool {
 	for i, t := range evalInv() {
 		fc.emit(st, fmt.Sprintf("inv.init.%d", i+1), site, ls.Invariants[i].Text, ls.Invariants[i].Tags, t)
 	}
+	if ls.Once {
+		if fc.loopDone[li] {
+			return true
+		}
+		fc.loopDone[li] = true
+		ex.forgetPath(st, fr, site)
+		for _, t := range evalInv() {
+			st.assume(t)
+		}
+		fr.variant[li.Header] = evalVariant()
+		return false
+	}
 	// havoc loop targets
 	for _, a := range li.Stored {
 		for k, v := range fr.locals {
@@ -769,6 +845,82 @@ func (ex *Exec) enterBlock(st *State, fr *Frame) bool {
 	}
 	fr.variant[li.Header] = evalVariant()
 	return false
+}
+
+// atCut: an intermediate assertion. Returns true when the path ends here (a path has
+// already continued from this cut).
+func (ex *Exec) atCut(st *State, fr *Frame, cs *CutSpec) bool {
+	fc := ex.fc
+	evalInv := func() []*Term {
+		env := ex.envFor(st, nil)
+		ex.localsEnv(st, fr, env)
+		var ts []*Term
+		for _, inv := range cs.Invariants {
+			ts = append(ts, env.evalBool(inv.E))
+		}
+		return ts
+	}
+	site := fmt.Sprintf("cut%d", cs.Ordinal)
+	for i, t := range evalInv() {
+		fc.emit(st, fmt.Sprintf("cut.%d", i+1), site, cs.Invariants[i].Text, cs.Invariants[i].Tags, t)
+	}
+	if fc.cutDone[cs] {
+		return true
+	}
+	fc.cutDone[cs] = true
+	ex.forgetPath(st, fr, site)
+	for _, t := range evalInv() {
+		st.assume(t)
+	}
+	return false
+}
+
+// forgetPath: keep what is known about the entry state, havoc every local that is assigned
+// after entry, and the heap (assigns clause plus the objects the function itself allocated).
+func (ex *Exec) forgetPath(st *State, fr *Frame, site string) {
+	fc := ex.fc
+	st.pc = append([]*Term(nil), st.pc[:fc.entryPCLen]...)
+	st.path = append(st.path, site)
+	// locals that only ever receive a parameter (the entry copies) keep their value
+	stores := map[*ssa.Alloc]int{}
+	paramOnly := map[*ssa.Alloc]bool{}
+	for _, b := range fr.fn.Blocks {
+		for _, in := range b.Instrs {
+			if s, ok := in.(*ssa.Store); ok {
+				if a := rootAlloc(s.Addr); a != nil {
+					stores[a]++
+					if _, isParam := s.Val.(*ssa.Parameter); isParam && s.Addr == ssa.Value(a) {
+						paramOnly[a] = true
+					} else {
+						paramOnly[a] = false
+					}
+				}
+			}
+		}
+	}
+	keep := map[string]bool{}
+	for a, n := range stores {
+		if n == 1 && paramOnly[a] {
+			keep[localKey(a, "")] = true
+		}
+	}
+	for k, v := range fr.locals {
+		if v.Arr != nil || v.T == nil || keep[k] {
+			continue
+		}
+		nv := fc.d.Fresh("cutv", v.T.Sort)
+		fr.locals[k] = SVal{Val: Val{T: nv, Typ: v.Typ}}
+	}
+	lh := ex.havocHeap(st, site, fc.assignSet, fc.assignAll, true)
+	lh.freshFrom = fc.entryAlloc
+	st.assume(Ge(st.alloc(), fc.entryAlloc))
+	for k, v := range fr.locals {
+		if v.Arr != nil || v.T == nil || keep[k] {
+			continue
+		}
+		st.assume(fc.wellFormed(v.T, v.Typ, st.alloc()))
+		st.assume(fc.typeInvariant(v.T, v.Typ))
+	}
 }
 
 // lexLess: a < b lexicographically with b's components bounded below by 0.
